@@ -450,7 +450,9 @@ def compile(object, return_code=False):
             return code[x]
         elif isinstance(x, str):
             # ################## str ##################
-            return Literal(f'"{x}"', block=code.root_block)
+            # Escape backslashes, quotes, newlines, ... such that the literal evaluates to x again
+            x_escaped = x.encode("unicode_escape").decode("ascii").replace('"', '\\"')
+            return Literal(f'"{x_escaped}"', block=code.root_block)
         elif isinstance(x, int | float | np.integer | np.floating | bool):
             # ################## Numeric ##################
             if isinstance(x, np.generic):
